@@ -692,6 +692,35 @@ Proof.
       destruct (R7 d') as (W1 & W2 & W3). rewrite Tr, Ts. split; [exact W1|split; [exact W2|exact W3]].
 Qed.
 
+(* ---------------------------------------------------------------- genesis round trip *)
+Lemma snap_norm_idem : forall p, snap_norm (snap_norm p) = snap_norm p.
+Proof. intros [t [a|]]; reflexivity. Qed.
+Lemma aget_some_key : forall A d (l : list (Z * A)) v, aget d l = Some v -> existsb (fun r => fst r =? d) l = true.
+Proof.
+  induction l as [|[k0 v0] l IH]; cbn [aget existsb fst]; intros v H; [discriminate|].
+  destruct (k0 =? d) eqn:E; [reflexivity|]. cbn [orb]. eapply IH; exact H.
+Qed.
+
+Lemma sound_genesis : forall k s, rel k s -> step_sound k s OGenesis.
+Proof.
+  intros k s R. pose proof R as (R1 & R2 & R3 & R4 & R5 & R6 & R7).
+  unfold step_sound, model_obs, step_total. cbn [step fst snd check_step].
+  unfold genesis_roundtrip, set_snaps. cbn [s_psnap s_ysnap s_ubis s_reg s_pools nat_supply supply_of s_bank].
+  split.
+  - cbn [Z.eqb cl app]. rewrite cl_true by (unfold nat_supply, supply_of in *; lia). cbn [app].
+    rewrite cl_true by (rewrite !snap_norm_idem, R3, R4, !snap_eqb_refl; reflexivity). cbn [app].
+    rewrite cl_true by (rewrite R6; apply list_eqb_refl, ubi_eqb_refl). cbn [app].
+    apply cl_true. apply andb_true_intro. split; [apply andb_true_intro; split|].
+    + apply forallb_forall. intros e _. destruct (R7 (fst e)) as (V1 & _). rewrite V1. apply otok_eqb_refl.
+    + apply forallb_forall. intros e He. apply in_map_iff in He. destruct He as (x & <- & _). cbn [fst snd].
+      destruct (R7 (fst x)) as (_ & V2 & _). rewrite V2. unfold supply_of. cbn [s_bank]. lia.
+    + apply forallb_forall. intros e _. destruct (R7 (fst e)) as (V1 & _). rewrite V1.
+      destruct (aget (fst e) (s_reg s)) as [t|] eqn:Et; [|reflexivity]. eapply aget_some_key. exact Et.
+  - apply rel_intro; cbn [k_now k_params k_psnap k_ysnap k_native k_ubis s_now s_params s_psnap s_ysnap s_ubis]; try congruence.
+    + unfold nat_supply, supply_of in *. cbn [s_bank]. exact R5.
+    + intros d. eapply view_ok_ext; try apply R7; reflexivity.
+Qed.
+
 (* ---------------------------------------------------------------- every operation, then histories *)
 Lemma step_sound_all : forall k s o, rel k s -> inv s -> good_op o -> step_sound k s o.
 Proof.
@@ -707,6 +736,7 @@ Proof.
   - apply sound_mint_issue2; assumption.
   - apply sound_burn; assumption.
   - apply sound_fee; assumption.
+  - apply sound_genesis; assumption.
 Qed.
 
 (* the trace the model produces, in the harness format *)
